@@ -273,6 +273,12 @@ def h_next(ex, st, frame, t, nf, args, dty):
 
 def h_collect_vec(ex, st, frame, t, nf, args, dty):
     it, _ = _get_iter(ex, st, args[0])
+    if re.search(r"Futures(Ordered|Unordered)<", dty):
+        if not it.dense:
+            raise Unsupported("stream of sparse iterator")
+        o = Obj(dty)
+        o.tag = ("stream", it)
+        return [(o, None)]
     if not it.dense:
         raise Unsupported("collect of sparse iterator")
     ga = generic_args(dty)
@@ -310,7 +316,58 @@ def h_partition_point(ex, st, frame, t, nf, args, dty):
     return [(Sym(i, "usize"), None)]
 
 
+def h_stream_next(ex, st, frame, t, nf, args, dty):
+    r = S.vec_ref_any(ex, st, args[0])
+    from .symex import FutureV
+    return [(FutureV("stream_next", [r], None, "stream_next"), None)]
+
+
+def stream_poll(ex, st, fut, out_ty, dty):
+    """poll of `stream.next()`: the next queued future completes (its output is arbitrary) or the stream is exhausted.
+    FuturesOrdered yields outputs in push order."""
+    sobj = S.deref_val(ex, st, fut.args[0])
+    if not (isinstance(sobj, Obj) and sobj.tag and sobj.tag[0] == "stream"):
+        raise Unsupported("stream_next on %r" % (sobj,))
+    it = sobj.tag[1]
+    cur = it.cursor
+    has = z3.ULT(cur, it.count)
+    from .symex import generic_args
+    ga = generic_args(out_ty)
+    item_ty = ga[0] if ga else "?"
+    alts = [(S.poll_ready(dty, S.none(out_ty)), z3.Not(has))]
+    if ex.feasible(st, has):
+        k = z3.simplify(cur)
+        pos = k.as_long() if z3.is_bv_value(k) else None
+        name = "stream item"
+        fargs = [Sym(cur, "usize")]
+        if pos is not None and pos < len(it.slots):
+            f = it.slots[pos][1]
+            name = getattr(f, "callee", "stream item")
+        it.cursor = z3.simplify(cur + 1)   # only observable on the `has` alternative (the other one ends the loop)
+        hook = getattr(ex, "await_hook", None)
+        v = None
+        if hook is not None:
+            sub_dty = "Poll<%s>" % item_ty
+            n_ev = len(st.events)
+            r = hook(ex, st, name, fargs, item_ty, sub_dty)
+            if r is not None:
+                if len(r) != 1 or r[0][1] is not None:
+                    raise Unsupported("stream item hook must give a single Ready value")
+                v = r[0][0].fields[("Ready", 0)]
+                # the hook logged its own event on st: move it to the `has` alternative only
+                ev = st.events[n_ev:]
+                del st.events[n_ev:]
+                if len(ev) == 1:
+                    alts.append((("event_then", ev[0], S.poll_ready(dty, S.some(v, out_ty))), has))
+                    return alts
+        if v is None:
+            v = ex.fresh(item_ty, st, "item")
+        alts.append((("event_then", ("await", name, fargs, v), S.poll_ready(dty, S.some(v, out_ty))), has))
+    return alts
+
+
 ITER_SUMMARIES = [
+    (r"^<.* as (\S*::)?StreamExt>::next$", h_stream_next),
     (r"^core::slice::(<impl[^>]*>::)?iter(_mut)?$", h_slice_iter),
     (r"^<.* as (\S*::)?IntoIterator>::into_iter$", h_into_iter),
     (r"^<.* as (\S*::)?Iterator>::map$", h_map),
